@@ -1169,7 +1169,14 @@ def call_method(I, typ, meth, recv, args, kwargs, st, node=None):
         if meth == "items":
             return V(tuple(o.items.items()), st)
         if meth == "update":
-            I.hmut(st, recv).items.update(I.hget(st, args[0]).items)
+            src = args[0] if args else None
+            if isinstance(src, Ref) and isinstance(I.hget(st, src), HDict):
+                I.hmut(st, recv).items.update(I.hget(st, src).items)
+            elif src is not None:
+                for pair in I.iterate(src, st, node):
+                    k, v = I.iterate(pair, st, node)
+                    I.hmut(st, recv).items[I.hashable(k, node)] = v
+            I.hmut(st, recv).items.update(kwargs)
             return V(None, st)
         if meth == "pop":
             if args[0] in o.items:
